@@ -229,3 +229,11 @@ Lemma xward_extraction_old_refuted :
   exists pd, xward_p_old pd [] wit_x2 = XOk [Some (5 + (pd 3%nat - 5) + (pd 2%nat - 3)); Some (3 + (pd 3%nat - 5) + (pd 2%nat - 3))]%Q
              /\ pd 3%nat = 6 /\ pd 2%nat = 5.
 Proof. exists (fun k => match k with 3%nat => 6 | 2%nat => 5 | _ => 0 end). vm_compute. repeat split. Qed.
+
+(* old rule: after a q-limit pass the xward got no slack share at all (constant power demand 5 at the bus, injection -6) *)
+Definition witql_net : net := mkNet [] [mkPq 3 3 5 0 1 true false] [] [] false 1 [].
+Definition witql_x : xwrow := mkXw 3 3 5 1 true true.
+Lemma qlims_old_xward_refuted :
+  xward_row witql_net [1;1;1;1] (fun k => PD_after_qlims_old witql_net [3%nat] k (mkC (-6) 0) true) [witql_x] witql_x == 5 /\
+  xward_row witql_net [1;1;1;1] (fun k => PD_after witql_net [3%nat] k (mkC (-6) 0)) [witql_x] witql_x == 6.
+Proof. vm_compute. split; reflexivity. Qed.
